@@ -44,11 +44,20 @@ fn main() {
                 None => println!("{js}"),
             }
         }
+        "gen" => {
+            let e = engines::by_name(&args[1]).unwrap_or_else(|| usage());
+            let seed: u64 = flag(&args, "--seed").and_then(|s| s.parse().ok()).unwrap_or(1);
+            let idx: usize = flag(&args, "--idx").and_then(|s| s.parse().ok()).unwrap_or(0);
+            let mut rng = rng::Rng::new(case_seed(seed, e.name(), idx));
+            for l in e.gen(&mut rng, Tier::Quick, idx) {
+                println!("{l}");
+            }
+        }
         "replay" => {
             let e = engines::by_name(&args[1]).unwrap_or_else(|| usage());
             let ops = read_replay(&args[2]);
             let io = run_impl_isolated(e.as_ref(), &[ops.clone()]).pop().unwrap();
-            let sp = e.run_spec(&ops);
+            let sp = e.run_spec(&ops, &io);
             let mo = flag(&args, "--driver").map(|d| run_model(&d, &[ops.clone()]).pop().unwrap());
             let mut bad = false;
             for (i, op) in ops.iter().enumerate() {
